@@ -256,6 +256,9 @@ func (e StdEng) denseConcat(a DenseTensor, axis int, Ts []DenseTensor) (DenseTen
 	if newShape, err = a.Shape().Concat(axis, ss...); err != nil {
 		return nil, errors.Wrap(err, "Unable to find new shape that results from concatenation")
 	}
+	if axis == AllAxes {
+		axis = 0 // Shape.Concat treats AllAxes as the first axis; the copying below has to agree with it
+	}
 
 	retVal := recycledDense(a.Dtype(), newShape, WithEngine(e))
 	if isMasked {
